@@ -16,6 +16,7 @@ type Generator struct {
 	plugin       *protogen.Plugin
 	generateMock bool
 	globalUnwrap *GlobalUnwrapInfo // Global unwrap info collected from all files
+	mockNested   int               // nested messages filled in so far by the mock method being generated
 }
 
 // Options configures the generator.
